@@ -54,6 +54,42 @@ func corpus() []engCase {
 			Where:   []wherePred{{Sub: &subq{Kind: "NOT IN", Outer: "x0.a", Col: "x1.c", Table: "t1", Alias: "x1"}}},
 			Configs: []config{{Name: "default"}, {Name: "MERGE_JOIN", Hint: "MERGE_JOIN(x1,x0)"}},
 		},
+		{ // range-heap join: static filter of a table read through the ordered index scan is lost
+			Kind: "engine",
+			Tables: []tableDef{tdef("t0", plain("t0"), []string{"CREATE INDEX i_b ON t0 (b)"}, row("1", "4", "2")),
+				tdef("t1", plain("t1"), nil, row("3", "2", "5"))},
+			Sel:     []string{"x1.c"},
+			From:    []fromItem{{Table: "t0", Alias: "x0"}, {Table: "t1", Alias: "x1", Kind: "INNER", On: []conj{{"x0.b >= x1.a"}, {"x0.b < x1.c"}}}},
+			Where:   []wherePred{{Disj: conj{"x0.a = 2"}}},
+			Configs: []config{{Name: "default"}, {Name: "inner-biased-coster", Bias: "inner"}, {Name: "rangeheap-biased-coster", Bias: "rangeheap"}},
+		},
+		{ // lookup join over Concat (OR of equalities): static filter of the looked-up table is lost
+			Kind: "engine",
+			Tables: []tableDef{tdef("t0", "CREATE TABLE t0 (a INT, b INT, c INT, UNIQUE KEY ua (a))", []string{"CREATE INDEX i_bc ON t0 (b, c)"}, row("1", "NULL", "0")),
+				tdef("t1", "CREATE TABLE t1 (a INT, b INT PRIMARY KEY, c INT)", nil, row("1", "1", "2"))},
+			Sel:     []string{"x0.c"},
+			From:    []fromItem{{Table: "t0", Alias: "x0"}, {Table: "t1", Alias: "x1", Kind: "INNER", On: []conj{{"x0.a = x1.a", "x0.b = x1.b"}}}},
+			Where:   []wherePred{{Disj: conj{"x0.b IS NOT NULL"}}},
+			Configs: []config{{Name: "default"}, {Name: "random-coster", Seed: 17902474889193919599}, {Name: "inner-biased-coster", Bias: "inner"}},
+		},
+		{ // merge join on a tuple key with a NULL component
+			Kind: "engine",
+			Tables: []tableDef{tdef("t0", "CREATE TABLE t0 (a INT, b INT PRIMARY KEY, c INT)", []string{"CREATE INDEX i_c ON t0 (c)"}, row("1", "5", "1"), row("NULL", "2", "0")),
+				tdef("t1", plain("t1"), []string{"CREATE INDEX i_ac ON t1 (a, c)"}, row("1", "1", "1"), row("NULL", "2", "1"))},
+			Sel:     []string{"x1.c"},
+			From:    []fromItem{{Table: "t0", Alias: "x0"}, {Table: "t1", Alias: "x1", Kind: "INNER", On: []conj{{"x0.c = x1.a"}, {"x0.c = x1.c"}}}},
+			Configs: []config{{Name: "default"}, {Name: "HASH_JOIN", Hint: "HASH_JOIN(x0,x1)"}},
+		},
+		{ // lookup key from an = conjunct becomes null-safe because an earlier <=> conjunct set the flag
+			Kind: "engine",
+			Tables: []tableDef{tdef("t0", plain("t0"), nil, row("2", "1", "2")),
+				tdef("t1", plain("t1"), []string{"CREATE INDEX i_cba ON t1 (c, b, a)"}, row("1", "NULL", "NULL")),
+				tdef("t2", plain("t2"), nil, row("0", "NULL", "1"))},
+			Sel: []string{"x2.c"},
+			From: []fromItem{{Table: "t0", Alias: "x0"}, {Table: "t1", Alias: "x1", Kind: "CROSS"},
+				{Table: "t2", Alias: "x2", Kind: "INNER", On: []conj{{"x1.a <=> x2.c"}, {"x1.c = x2.b"}}}},
+			Configs: []config{{Name: "default"}, {Name: "random-coster", Seed: 9360651348355887227}, {Name: "lookup-biased-coster", Bias: "lookup"}},
+		},
 		{ // passing neighbour: conjunction of equalities in EXISTS
 			Kind:    "engine",
 			Tables:  []tableDef{tdef("t0", plain("t0"), nil, row("0", "1", "1")), tdef("t1", plain("t1"), nil, row("0", "0", "0"), row("0", "1", "1"), row("0", "1", "2"))},
